@@ -112,7 +112,9 @@ func (e *Engine) verifyFunc(fn *ssa.Function, ct *Contract, slice map[string]boo
 			if len(cl.Tags) > 0 {
 				tag = "[" + strings.Join(cl.Tags, ",") + "]"
 			}
-			vc.oblige("post", fmt.Sprintf("%s#post%s", shortFn(fn), tag), pos, "ensures "+cl.Text+" ["+cl.Src+"]", retReach, te2.formula(cl.E), cl.Tags)
+			if o := vc.oblige("post", fmt.Sprintf("%s#post%s", shortFn(fn), tag), pos, "ensures "+cl.Text+" ["+cl.Src+"]", retReach, te2.goalFormula(cl.E), cl.Tags); o != nil && len(vc.retConds) > 1 && len(vc.retConds) <= 12 {
+				o.Cases = vc.retConds
+			}
 		}
 		if !ct.Trusted {
 			vc.frameObligations(fn, ct, te2, final, retReach)
